@@ -7,20 +7,33 @@ Open Scope string_scope.
 
 Definition bad : string := "BAD-CASE".
 
-Definition run_sexp (x : sexp) : string :=
+(* each family contributes one runner: Some text when the case is its own *)
+Definition run_cmp (x : sexp) : option string :=
   match x with
   | SList [SAtom "cmp"; a; b] =>
       match value_of_sexp a, value_of_sexp b with
-      | Some a', Some b' => show_Z (sign_of (compare a' b'))
-      | _, _ => bad
+      | Some a', Some b' => Some (show_Z (sign_of (compare a' b')))
+      | _, _ => Some bad
       end
   | SList [SAtom "echo"; a] =>
       match value_of_sexp a with
-      | Some a' => show_sexp (value_to_sexp a')
-      | None => bad
+      | Some a' => Some (show_sexp (value_to_sexp a'))
+      | None => Some bad
       end
-  | _ => bad
+  | _ => None
   end.
+
+Definition runners : list (sexp -> option string) :=
+  [ run_cmp
+  ].
+
+Fixpoint first_some (rs : list (sexp -> option string)) (x : sexp) : string :=
+  match rs with
+  | [] => bad
+  | r :: t => match r x with Some s => s | None => first_some t x end
+  end.
+
+Definition run_sexp (x : sexp) : string := first_some runners x.
 
 Definition run_case (line : string) : string :=
   match parse_sexp line with
